@@ -18,9 +18,11 @@ arena `Tuning`, any HCOBS parameters.
   chunks (production: 192 024), however much data has been streamed.
   The constant is NOT small, and cannot be for anchored input: `example`s below stream 1-byte short reads of
   `encode_read(count = chunk size)` and pin one arena chunk PER BYTE of the open HCOBS chunk (the expected
-  "K = 3" of DESIGN.md section 5/C10 is false for `encode_read`; see the report).  For borrowed / copied
-  input `Props/C10.streaming_footprint`'s `2·B/m₀ + 2` (= 33) is the better constant; it is not re-proved
-  on the codec run here (open item).
+  "K = 3" of DESIGN.md section 5/C10 is false for `encode_read`; see the report).
+* `enc_streaming_footprint_small_partial` (borrowed / copied input): there the potential argument of
+  `Props/C10.streaming_footprint` goes through on the real run (`Proofs/EncPotential.lean`): at most
+  `2·cur/m₀ + 2` anchors, `2·max(maxInit, maxSub)/m₀ + 3` live chunks at every quiescent point — production:
+  34 chunks, `enc_streaming_liveBytes_small_prod_partial`: at most 34 MiB of live arena memory.
 * `dec_streaming_footprint` (all input methods): nothing is ever pending; after `consume(k)` with `k` at
   least the number of buffered slices the iovec has no slice and NO anchor: the only live chunk is the
   cache's.
@@ -46,6 +48,7 @@ First sentence (no leak after drop), as DROP HISTORIES (`Proofs/DropHist.lean`):
   `enc_drop_releases`, `dec_drop_releases` — after any run, `drop 0` leaves no live chunk.
 -/
 import Woodpile.Proofs.EncLiveBytes
+import Woodpile.Proofs.EncPotential
 import Woodpile.Props.C02
 
 namespace Woodpile.Props.C10H
@@ -192,6 +195,75 @@ theorem dec_streaming_liveBytes_partial (T : Tuning) (B m₀ S : Nat) (hb : Tuni
     have := liveBytes_le (caps := caps) (w := w2) (S := S) (fun k hk => hcap k (mem_liveChunks.1 hk).1)
     have h1 : w2.liveChunks.length * S ≤ 1 * S := Nat.mul_le_mul_right S hlen
     omega
+
+/-! ### The small constant (borrowed / copied input) -/
+
+/-- PARTIAL (borrow / copy input only).  The potential argument of `Props/C10.streaming_footprint` on the
+real encoder run: on a tuning whose chunks have at least `m₀` bytes, at every quiescent point the anchor
+deque has at most `2·cur/m₀ + 2` anchors (`cur` < the HCOBS chunk limit: the bytes of the open HCOBS
+chunk), hence at most `2·max(maxInit, maxSub)/m₀ + 3` live chunks — whatever the policy, the piece sizes,
+the drain schedule before, the amount streamed. -/
+theorem enc_streaming_footprint_small_partial (T : Tuning) (m₀ : Nat) (hm : 0 < m₀)
+    (hlo : ∀ len prev, m₀ ≤ max (findHintSize T len prev) len) (p : Params) (hp : p.Valid) (pol : Policy)
+    (calls : List Call) :
+    ∃ r v, encPrefix p pol T calls = some r ∧ r.w.iov 0 = some v ∧ r.e.st.cur < max p.maxInit p.maxSub ∧
+      (v.stableCount = some 0 → v.anchors.length ≤ 2 * r.e.st.cur / m₀ + 2 ∧
+        r.w.liveChunks.length ≤ 2 * max p.maxInit p.maxSub / m₀ + 3) := by
+  obtain ⟨r, v, h1, hv, _, _, _, _, _, hlen, hcm, _⟩ := enc_streaming_footprint p hp pol T (calls.map .call)
+  have h1' : encPrefix p pol T calls = some r := by
+    unfold encPrefixA at h1
+    unfold encPrefix
+    cases h0 : encInit p (World.fresh pol T) 0 with
+    | none => rw [h0] at h1; cases h1
+    | some x =>
+      obtain ⟨w1, e1⟩ := x
+      rw [h0] at h1
+      simp only [encCallsA_call] at h1
+      exact h1
+  obtain ⟨F, WF, b, ⟨_, _, v', hv', hq, hb⟩, hwf⟩ := encPrefix_qpb hlo p pol calls r h1'
+  rw [hv] at hv'; cases hv'
+  have hcur : r.e.st.cur < max p.maxInit p.maxSub := by unfold cm at hcm; omega
+  refine ⟨r, v, h1', hv, hcur, fun hs => ?_⟩
+  have h2 := hq.quiescent hm (by rw [hb]; simp) hs
+  have h3 : 2 * WF / m₀ ≤ 2 * r.e.st.cur / m₀ := Nat.div_le_div_right (by omega)
+  have h4 : 2 * r.e.st.cur / m₀ ≤ 2 * max p.maxInit p.maxSub / m₀ := Nat.div_le_div_right (by omega)
+  constructor
+  · omega
+  · omega
+
+/-- PARTIAL (borrow / copy input only).  … and the live BYTES, by the `GReach` capacity ghost: at most
+`(2·max(maxInit, maxSub)/m₀ + 3)·S` at every quiescent point. -/
+theorem enc_streaming_liveBytes_small_partial (T : Tuning) (B m₀ S : Nat) (hb : TuningBounds T B m₀ S) (hm : 0 < m₀)
+    (p : Params) (hp : p.Valid) (hB : max 1 (max p.maxInit p.maxSub) ≤ B) (hB2 : 2 ≤ B) (pol : Policy) (calls : List Call) :
+    ∃ r v caps, encPrefix p pol T calls = some r ∧ r.w.iov 0 = some v ∧ GReach (r.w.wb r.e.toks) caps ∧
+      (v.stableCount = some 0 → liveBytes caps r.w ≤ (2 * max p.maxInit p.maxSub / m₀ + 3) * S) := by
+  obtain ⟨r, v, caps, h1, hv, hg, _, hlb, _⟩ := enc_streaming_liveBytes_partial T B m₀ S hb p hp hB hB2 pol calls
+  obtain ⟨r', v', h1', hv', _, hq⟩ := enc_streaming_footprint_small_partial T m₀ hm hb.lo p hp pol calls
+  rw [h1] at h1'; cases h1'
+  rw [hv] at hv'; cases hv'
+  exact ⟨r, v, caps, h1, hv, hg, fun hs => Nat.le_trans hlb (Nat.mul_le_mul_right S (hq hs).2)⟩
+
+/-- … production tuning and parameters: at most 34 live chunks and 34 MiB of live arena memory at every
+quiescent point of any `encode` / `encode_copy` stream. -/
+theorem enc_streaming_liveBytes_small_prod_partial (pol : Policy) (calls : List Call) :
+    ∃ r v caps, encPrefix C02.prod pol Woodpile.Iovec.prodTuning calls = some r ∧ r.w.iov 0 = some v ∧
+      GReach (r.w.wb r.e.toks) caps ∧
+      (v.stableCount = some 0 → r.w.liveChunks.length ≤ 34 ∧ liveBytes caps r.w ≤ 34 * 1048576) := by
+  have hm : max C02.prod.maxInit C02.prod.maxSub = 64008 := by decide
+  obtain ⟨r, v, caps, h1, h2, h3, h4⟩ := enc_streaming_liveBytes_small_partial Woodpile.Iovec.prodTuning 64008 4096
+    1048576 (prodTuning_bounds 64008 (by omega)) (by omega) C02.prod C02.prod_params_valid (by rw [hm]; omega) (by omega)
+    pol calls
+  obtain ⟨r', v', h1', h2', _, h5⟩ := enc_streaming_footprint_small_partial Woodpile.Iovec.prodTuning 4096 (by omega)
+    (prodTuning_bounds 64008 (by omega)).lo C02.prod C02.prod_params_valid pol calls
+  rw [h1] at h1'; cases h1'
+  rw [h2] at h2'; cases h2'
+  refine ⟨r, v, caps, h1, h2, h3, fun hs => ⟨?_, ?_⟩⟩
+  · have := (h5 hs).2
+    rw [hm] at this
+    exact this
+  · have := h4 hs
+    rw [hm] at this
+    exact this
 
 /-! ### Drop histories -/
 
